@@ -168,7 +168,7 @@ class World:
             argv = [BIN] + pre + list(args)
         self._record("git", list(args), cwd, env, input, plain=bool(plain), tick=bool(tick))
         p = run(argv, run_cwd, e, input=input, timeout=timeout)
-        if b"panicked at" in p.err:
+        if b"panicked at" in p.err and getattr(self, "panic_is_error", True):
             raise Panic("panic in %r: %s" % (args, p.stderr[-600:]))
         return p
 
@@ -220,7 +220,7 @@ class World:
         return p
 
     def _ck(self, p):
-        if b"panicked at" in p.err:
+        if b"panicked at" in p.err and getattr(self, "panic_is_error", True):
             raise Panic("panic in checkpoint: " + p.stderr[-600:])
         if p.rc != 0:
             raise RuntimeError("checkpoint exited %d: %s" % (p.rc, p.stderr[-400:]))
